@@ -68,6 +68,71 @@ Theorem c11_incoming_proto_handshake_no_panic : forall env buf stream w,
 Proof. exact incoming_proto_handshake_no_panic. Qed.
 Print Assumptions c11_incoming_proto_handshake_no_panic.
 
+Theorem c11_outgoing_proto_handshake_no_panic : forall env buf stream w,
+  outgoing_proto_handshake env buf stream <> Panic w.
+Proof. exact outgoing_proto_handshake_no_panic. Qed.
+Print Assumptions c11_outgoing_proto_handshake_no_panic.
+
+(* ---- (3b) "never hangs" for handshake frames: the four exported entry points under a ctx that becomes done ----
+   Quantified over the entry point, the kind of connection (what Close does to a pending Read/Write), every byte
+   string the peer may send, EVERY point at which it may stop sending (EOF or silence, [p_eof]) and every behaviour
+   of our own writes (succeed / fail / park). *)
+Theorem c11_handshake_p_no_panic : forall which env p buf stream w, hs_inner which env p buf stream <> Panic w.
+Proof. exact hs_inner_no_panic. Qed.
+Print Assumptions c11_handshake_p_no_panic.
+
+Theorem c11_handshake_entry_returns : forall which k env p buf stream,
+  spec_C11 (class_of_run (hs_entry which k env p buf stream)) = true.
+Proof. exact hs_entry_returns. Qed.
+Print Assumptions c11_handshake_entry_returns.
+
+Theorem c11_handshake_entry_never_hangs : forall which k env p buf stream, hs_entry which k env p buf stream <> Hung.
+Proof. exact hs_entry_never_hangs. Qed.
+Print Assumptions c11_handshake_entry_never_hangs.
+
+Theorem c11_handshake_entry_kind_independent : forall which k1 k2 env p buf stream,
+  hs_entry which k1 env p buf stream = hs_entry which k2 env p buf stream.
+Proof. exact hs_entry_kind_independent. Qed.
+Print Assumptions c11_handshake_entry_kind_independent.
+
+Theorem c11_handshake_entry_result : forall which k env p buf stream,
+  (hs_inner which env p buf stream = Err E_blocked ->
+     hs_entry which k env p buf stream = Returned (Err E_deadline)) /\
+  (hs_inner which env p buf stream <> Err E_blocked ->
+     hs_entry which k env p buf stream = Returned (hs_inner which env p buf stream)).
+Proof. exact hs_entry_result. Qed.
+Print Assumptions c11_handshake_entry_result.
+
+(* silence instead of EOF never changes a verdict: ctx error, or exactly the result for the same bytes + EOF *)
+Theorem c11_handshake_stall_or_eof : forall which k env w buf stream,
+  hs_entry which k env (mkPeer false w) buf stream = Returned (Err E_deadline) \/
+  hs_entry which k env (mkPeer false w) buf stream = hs_entry which k env (mkPeer true w) buf stream.
+Proof. exact hs_entry_stall_or_eof. Qed.
+Print Assumptions c11_handshake_stall_or_eof.
+
+Theorem c11_handshake_truncated_header_deadline : forall which k env w buf stream,
+  w <> WFail -> blen stream < header_size ->
+  hs_entry which k env (stalled w) buf stream = Returned (Err E_deadline).
+Proof. exact hs_entry_truncated_header_deadline. Qed.
+Print Assumptions c11_handshake_truncated_header_deadline.
+
+(* the design "conversation inline + context.AfterFunc(ctx, conn.Close)" (NOT the code): indistinguishable on
+   connections whose Close interrupts a pending Read, a hang on a QUIC-stream-like connection *)
+Theorem c11_inline_close_on_done_same_when_close_interrupts : forall inner,
+  entry_inline_close_on_done KCloseInterrupts inner = entry_with_ctx KCloseInterrupts inner.
+Proof. exact inline_close_on_done_same_when_close_interrupts. Qed.
+Print Assumptions c11_inline_close_on_done_same_when_close_interrupts.
+
+Theorem c11_inline_close_on_done_refuted : exists which env stream,
+  class_of_run (entry_inline_close_on_done KCloseSendOnly (hs_inner which env (stalled WOk) pool_buf stream)) = CHang.
+Proof. exact inline_close_on_done_refuted. Qed.
+Print Assumptions c11_inline_close_on_done_refuted.
+
+Theorem c11_model_meets_spec_stall : forall which k env w buf stream (points : list N),
+  spec_C11_stall (map (fun n => class_of_run (hs_entry which k env (stalled w) buf (stall_at n stream))) points) = true.
+Proof. exact hs_entry_meets_spec_stall. Qed.
+Print Assumptions c11_model_meets_spec_stall.
+
 (* ---- (2) keepidentity.go: the hand-written protobuf wire parser (varints, length-delimited nesting) ---- *)
 Theorem c11_consume_varint_no_panic : forall b w, consume_varint b <> Panic w.
 Proof. exact consume_varint_no_panic. Qed.
@@ -260,6 +325,21 @@ Example c11_handshake_nonvacuous :
   (* truncated body *)
   class_of (incoming_handshake env pool_buf [1; 9;0;0;0; 1;2;3]) = CErr.
 Proof. vm_compute. auto. Qed.
+
+(* stall points of one valid inbound conversation (cred frame, 2-byte body; ack frame, empty body): parked at every
+   proper prefix => ctx error; complete => accepted; the same on the three kinds of connection; with parked writes
+   the conversation parks once it has to answer; a rejected stream is rejected without waiting for the deadline *)
+Example c11_stall_nonvacuous :
+  let env := mkEnv (fun _ _ => true) true (fun _ => true) (fun _ => true) true in
+  let s := [1; 2;0;0;0; 9;9; 2; 0;0;0;0] in
+  map (fun n => hs_entry 0 KCloseSendOnly env (stalled WOk) pool_buf (stall_at n s)) [0; 1; 5; 6; 7; 11] =
+    repeat (Returned (Err E_deadline)) 6 /\
+  hs_entry 0 KCloseSendOnly env (stalled WOk) pool_buf (stall_at 12 s) = Returned (Ok tt) /\
+  hs_entry 0 KCloseInert env (stalled WBlock) pool_buf (stall_at 12 s) = Returned (Err E_deadline) /\
+  hs_entry 0 KCloseInterrupts env (stalled WOk) pool_buf [2; 0;0;0;0] = Returned (Err E_unexpected) /\
+  hs_entry 3 KCloseSendOnly env (stalled WOk) pool_buf [3; 0;0;0;0] = Returned (Ok tt) /\
+  hs_entry 1 KCloseSendOnly env (stalled WFail) pool_buf [] = Returned (Err E_eof).
+Proof. vm_compute. repeat split. Qed.
 
 Definition ours_ex (id : bytes) : bool := match id with [79] => true | _ => false end.
 (* AclData{ content{ readKeyChange{ accountKeys{identity="O", key="k"}, accountKeys{identity="x", key="k"}, meta="m" } } } *)
